@@ -294,6 +294,30 @@ def newformat(rep, prog, B=None):
     B.sweep('C09.1', 'Header.length (octets)', lb.where, 'partial body length octets', 'a partial body length octet 224..254 announces 1 << (octet & 0x1F) body octets, '
             'followed by the next length field (RFC 4880 4.2.2.4)', (('first octet %#04x' % o, partial(o), partial_want(o)) for o in range(224, 255)))
 
+    # parse then serialise: whatever width the length arrived in (non-minimal five octets, partial chunks), what is written back is the
+    # shortest encoding of the total length and len(header) is the number of octets written
+    def reser(field, chunk=0):
+        def thunk():
+            buf = new_header_octets(2, field)
+            if chunk:
+                buf.extend(VBuf.fill(0x11, chunk))
+                buf.extend(b'\x03abc')
+            buf.extend(body)
+            h = packet_header(E, PH, buf)
+            out = E.method(h, '__bytearray__')
+            return (E.get(h, 'length'), E.get(h, 'llen'), E.length(h), snap(out))
+        return thunk
+
+    def reser_want(n):
+        f = rfc_new_length(n)
+        return ok((n, len(f), 1 + len(f), b'\xc2' + f))
+    cases = [('length field %s' % rfc_new_length(n).hex(), reser(rfc_new_length(n)), reser_want(n)) for n in (0, 5, 191, 192, 1723, 8383, 8384, 70000, (1 << 32) - 1)]
+    cases += [('non-minimal length field ff %s' % n.to_bytes(4, 'big').hex(), reser(b'\xff' + n.to_bytes(4, 'big')), reser_want(n)) for n in (0, 5, 191, 192, 1723, 8383)]
+    cases += [('partial octet %#04x then 03' % o, reser(bytes([o]), 1 << (o & 0x1F)), reser_want((1 << (o & 0x1F)) + 3)) for o in (0xE0, 0xE1, 0xE7, 0xE8, 0xED, 0xF1, 0xFE)]
+    B.sweep('C09.1', 'packet Header (parse then write)', _where(PH.find_method('__bytearray__'), lb), 'parsed new-format header written back',
+            'a header that was parsed is written with the shortest new-format encoding of its length - also when the length arrived as a non-minimal '
+            'five-octet field or as partial body lengths - and len(header) is the number of octets written', cases)
+
     # declared width (llen, len) = emitted width
     g = E._prop(H, 'llen')
     g = g[0] if g else None
@@ -765,10 +789,14 @@ def subpacket_header(rep, prog, B=None):
             if kind == 'set':
                 n, t, crit = a
             else:
-                n, t, crit = a[0], a[1] & 0x7F, bool(a[1] & 0x80)      # one-octet lengths only
+                if a[0] == 0xFF:
+                    n, t, crit = int.from_bytes(a[1:5], 'big'), a[5] & 0x7F, bool(a[5] & 0x80)
+                else:
+                    n, t, crit = a[0], a[1] & 0x7F, bool(a[1] & 0x80)      # otherwise one-octet lengths only
             out.append((rfc_new_length(n) + bytes([(0x80 if crit else 0) | t]), t, crit, len(rfc_new_length(n)) + 1))
         return ok(tuple(out))
-    seqs = ((('set', (5, 2, True)), ('set', (300, 2, False)), ('set', (5, 27, True))),
+    seqs = ((('parse', b'\xff\x00\x00\x00\x05\x82'),), (('parse', b'\xff\x00\x00\x00\xc0\x02'), ('set', (5, 2, False))),
+            (('set', (5, 2, True)), ('set', (300, 2, False)), ('set', (5, 27, True))),
             (('parse', b'\x05\x82'), ('parse', b'\x05\x02'), ('set', (9000, 2, False))),
             (('set', (9000, 33, False)), ('parse', b'\x07\xa1'), ('parse', b'\x00\x21')))
     B.sweep('C09.6', 'subpacket Header', wr.where, 'subpacket header reused', 'length, type and critical flag follow the last store / parse (nothing sticks)',
@@ -918,9 +946,9 @@ def partial(rep, prog, B=None):
         def thunk():
             buf, _, _ = build()
             h = packet_header(E, PH, buf)
-            return (E.get(h, 'length'), snap(buf))
+            return (E.get(h, 'length'), snap(buf), E.length(h), snap(E.method(h, '__bytearray__')))
         _, want, total = build()
-        return thunk, ok((total, snap(want)))
+        return thunk, ok((total, snap(want), 1 + len(rfc_new_length(total)), b'\xc2' + rfc_new_length(total)))
     cases = []
     for chunks, n in (((0,), 0), ((1,), 1), ((9,), 191), ((9,), 192), ((9,), 1723), ((9,), 8383), ((9,), 8384), ((3,), 70000), ((1, 9), 5),
                       ((9, 1), 300), ((2, 3, 4), 0), ((0, 0, 0, 0), 200), ((13, 13), 8384), ((30,), 3), ((16, 30, 1), 256)):
@@ -931,4 +959,4 @@ def partial(rep, prog, B=None):
     cases.append(('partial chunk 2^4 then ff 00 00 00 05', t, w))
     B.sweep('C09.8', 'Header.length (octets)', _where(lb, hp), 'partial-length accumulation',
             'after a partial chunk the next length field sits `total` octets in; it is removed there (all its octets) and the chunk lengths add up to '
-            'the body length, leaving the contiguous body', cases)
+            'the body length, leaving the contiguous body; written back, the header carries the shortest encoding of the total and len(header) agrees', cases)
